@@ -344,8 +344,69 @@ fn sweep_zone() -> (Zone, String, Vec<DomainName>) {
     (zone, spec, names)
 }
 
-pub fn run_serve(r: &mut Rng, n: usize, out: &mut Out) {
+/// records that cannot be put on the wire (RDLENGTH needs more than 16 bits) next to the largest one
+/// that can: the server must still send exactly one reply to a question about them
+fn bigrec_zone() -> (Zone, String, Vec<DomainName>) {
+    let apex = DomainName::from_dotted_string("big.test.").unwrap();
+    let soa = SOA {
+        mname: DomainName::from_dotted_string("ns.big.test.").unwrap(),
+        rname: DomainName::from_dotted_string("admin.big.test.").unwrap(),
+        serial: 1, refresh: 2, retry: 3, expire: 4, minimum: 60,
+    };
+    let mut spec = format!("{}!{}", c::name(&apex), crate::streams::zone::soa_text(&soa));
+    let mut zone = Zone::new(apex, Some(soa));
+    let mut names = Vec::new();
+    for k in [65_535usize, 65_536, 66_000] {
+        let name = DomainName::from_dotted_string(&format!("t{k}.big.test.")).unwrap();
+        let data = RecordTypeWithData::TXT { octets: bytes::Bytes::from(vec![b'x'; k]) };
+        let rr = ResourceRecord { name: name.clone(), rtype_with_data: data.clone(), rclass: RecordClass::IN, ttl: 300 };
+        spec.push_str(&format!("!i:{}", c::rr(&rr)));
+        zone.insert(&name, data, 300);
+        names.push(name);
+    }
+    (zone, spec, names)
+}
+
+fn run_bigrec(r: &mut Rng, out: &mut Out) -> usize {
+    let dir = scratch("serve-big");
+    let (z, spec, names) = bigrec_zone();
+    let path = dir.join("big.zone");
+    std::fs::write(&path, z.serialise()).unwrap();
+    let args: Vec<String> = vec!["--authoritative-only".into(), "-z".into(), path.to_string_lossy().into_owned()];
+    let Some(server) = Server::start(&args) else {
+        out.case(&["server.start", "auth"], "failed");
+        return 1;
+    };
     let mut done = 0;
+    for name in &names {
+        let q = Message::from_question(
+            r.next_u64() as u16,
+            Question { name: name.clone(), qtype: QueryType::Record(RecordType::TXT), qclass: QueryClass::Record(RecordClass::IN) },
+        )
+        .to_octets()
+        .unwrap()
+        .to_vec();
+        let text = match server.udp_with_sentinel(&q) {
+            None => "server-silent".to_string(),
+            Some(replies) if replies.is_empty() => "noreply".to_string(),
+            Some(replies) => replies.iter().map(|b| c::hex(b)).collect::<Vec<_>>().join("+"),
+        };
+        out.case(&["server.udp", "auth", &spec, &c::hex(&q)], &text);
+        let mut wire = (q.len() as u16).to_be_bytes().to_vec();
+        wire.extend_from_slice(&q);
+        let resp = server.tcp_once(&wire, false);
+        out.case(&["server.tcp", "auth", &spec, &c::hex(&q)], &resp.map_or("conn-failed".into(), |b| c::hex(&b)));
+        done += 2;
+    }
+    let alive = server.alive() && server.udp_once(&probe_query(7), Duration::from_secs(2)).is_some();
+    out.case(&["server.alive", "auth"], if alive { "alive" } else { "dead" });
+    drop(server);
+    let _ = std::fs::remove_dir_all(&dir);
+    done + 1
+}
+
+pub fn run_serve(r: &mut Rng, n: usize, out: &mut Out) {
+    let mut done = run_bigrec(r, out);
     let mut swept = false;
     while done < n {
         let dir = scratch("serve");
